@@ -120,6 +120,7 @@ class SigWorld(HistoryWorld):
             self._simulate(st, ctx)
             st.queue.append({'op': 'check'})
             st.queue.append({'op': 'heal_check'})
+            st.queue.append({'op': 'former_validator', 'who': ctx.rng.randrange(3), 'weight': ctx.rng.choice([1, 5, 10 ** 6, 2 ** 62])})
             st.queue.append({'op': 'replay_sibling', 'which': ctx.rng.choice(['file', 'root']), 'byte': ctx.rng.randrange(32), 'subset': ctx.rng.random() < 0.3})
             return st.queue.pop(0)
         return None
@@ -266,6 +267,29 @@ class SigWorld(HistoryWorld):
         if not ok:
             self.V(ctx, 'liveness-after-heal', 'check_block_signatures', 'all-honest', 'after faults stopped, the complete set of valid signatures by all %d validators was rejected: %r' % (len(sigs), res))
 
+    def op_former_validator(self, st, op, ctx):
+        """Validator-set rotation: X belongs to the set checked first and not to the set checked next; X's (valid) signature
+        in the second call is from an unknown signer, whatever was checked before."""
+        if not st.nodes:
+            return
+        x = st.foreign[op['who'] % 3]
+        xnode = ValidatorDescr('validator', SigPubKey(bytes(x.verify_key)), op['weight'])
+        sigs = [self._sig(st, {'v': i, 'kind': 'valid', 'bit': 0}) for i in range(len(st.keys))]
+        xs = self._sig(st, {'v': op['who'], 'kind': 'foreign', 'bit': 0})
+        clean = [{'node_id_short': s['node_id_short'], 'signature': s['signature']} for s in sigs + [xs]]
+        ok, res = call(check_block_signatures, list(st.nodes) + [xnode], clean, st.blk)
+        ctx.evaluated(1)
+        if not ok:
+            self.V(ctx, 'rejected-valid-set', 'check_block_signatures', 'set-with-extra-validator', 'all %d validators of the larger set signed, rejected: %r' % (len(clean), res))
+            return
+        ctx.fault('validator-set-rotated-former-member-signs')
+        ok, res = call(check_block_signatures, list(st.nodes), clean, st.blk)
+        ctx.evaluated(1)
+        ctx.obs(ok)
+        if ok:
+            self.V(ctx, 'accepted-invalid-set', 'check_block_signatures', 'former-validator-still-known',
+                   'a signature by a member of the previously checked validator set, who is not in the supplied set, was accepted')
+
     def op_replay_sibling(self, st, op, ctx):
         """After the genuine set for block A has been accepted, a relay presents the same signatures for a sibling
         identifier B that shares A's root hash (or file hash) - they do not sign B."""
@@ -303,7 +327,8 @@ class SigWorld(HistoryWorld):
 DEVIATIONS = ['wrong-expected-hash', 'flip-data-bit', 'change-bit-length', 'swap-refs', 'drop-ref', 'dup-ref', 'flip-root-hash-field', 'substitute-pruned-hash',
               'root-ordinary', 'root-pruned', 'root-merkle-update', 'transit-bitflip']
 ACCOUNT_DEVIATIONS = ['claim-other-cell', 'claim-pruned-carrying-hash', 'claim-skeleton-with-pruned-children', 'wrong-block-hash', 'other-address',
-                      'flip-data-bit', 'substitute-pruned-hash', 'swap-refs', 'root-ordinary', 'transit-bitflip', 'state-from-other-block']
+                      'flip-data-bit', 'substitute-pruned-hash', 'swap-refs', 'root-ordinary', 'transit-bitflip', 'state-from-other-block',
+                      'missing-root', 'roots-swapped', 'root-merkle-update']
 
 
 class ProofSt:
@@ -499,7 +524,8 @@ class ProofWorld(HistoryWorld):
     def q_generic(self, st, op, ctx):
         dev = op['dev']
         dk = dev['kind'] if dev else None
-        if dk in ('wrong-block-hash', 'other-address', 'claim-other-cell', 'claim-pruned-carrying-hash', 'claim-skeleton-with-pruned-children', 'state-from-other-block'):
+        if dk in ('wrong-block-hash', 'other-address', 'claim-other-cell', 'claim-pruned-carrying-hash', 'claim-skeleton-with-pruned-children', 'state-from-other-block',
+                  'missing-root', 'roots-swapped'):
             dk, dev = None, None
         tree = st.tree
         expected = tree.hash
@@ -581,7 +607,7 @@ class ProofWorld(HistoryWorld):
         dev = op['dev']
         dk = dev['kind'] if dev else None
         if dk in ('flip-root-hash-field', 'root-ordinary', 'root-pruned', 'root-merkle-update', 'claim-other-cell', 'claim-pruned-carrying-hash', 'claim-skeleton-with-pruned-children',
-                  'other-address', 'state-from-other-block'):
+                  'other-address', 'state-from-other-block', 'missing-root', 'roots-swapped'):
             dk, dev = None, None
         block = st.block
         expected = block.hash
@@ -711,6 +737,16 @@ class ProofWorld(HistoryWorld):
             i = dev['seed'] % 2
             r = roots[i]
             roots[i] = RCell(r.bits, (pruned_stub(r.refs[0]),) if False else r.refs, False, strict=False)
+        elif dk == 'missing-root':
+            roots.pop(dev['seed'] % 2)
+        elif dk == 'roots-swapped':
+            roots.reverse()
+        elif dk == 'root-merkle-update':
+            i = dev['seed'] % 2
+            try:
+                roots[i] = merkle_update_of(roots[i].refs[0], roots[i].refs[0])
+            except RCellError:
+                dk = None
         try:
             data = self._encode(roots, op['enc_seed'])
         except Exception:
